@@ -2,7 +2,7 @@
    MiniEgo VM model; proofs live in Proofs.v. *)
 From Coq Require Import ZArith NArith List Bool.
 Import ListNotations.
-From VM Require Import Model Proofs.
+From VM Require Import Model Proofs Shape.
 Open Scope nat_scope.
 
 (* A catchable error raised in ANY running context whose innermost live try entry is number k and whose try
@@ -201,3 +201,39 @@ Proof. exact ret1_stack_clean. Qed.
 Theorem C10_return_marker_old_refuted :
   exists fp st, 0 < fp /\ fp <= length st /\ length (ret1_stack_old fp st) <> fp.
 Proof. exact ret1_stack_old_leaks. Qed.
+
+(* ------------------------------------------------------------------ the stack-shape hypothesis is an invariant *)
+(* shape_ok = the shape part of between_instructions (call frames saved the frame pointer of the stack below
+   them, the frame pointer is consistent, the result register is empty while running).  It is preserved by the
+   model's own semantics of every instruction that completes, for the instructions that do not move call
+   frames (arithmetic, load/store, scopes, branches, print, markers, Try/TryPop, Defer, Recover), for Call (the
+   pushed frame saves the right frame pointer) and for RunDefers ... *)
+Theorem C10_step_preserves_shape : forall child p g c i g' c',
+  shape_ok c ->
+  (simple_instr i = true \/ (exists n, i = ICall n) \/ i = IRunDefers) ->
+  exec child p g (set_pc c (S (c_pc c))) i = (g', c', None) -> shape_ok c'.
+Proof. exact step_preserves_shape. Qed.
+
+(* ... and by the catch redirection: the context a catch block starts in is well shaped again, whatever number
+   of values, markers and call frames the unwinding popped. *)
+Theorem C10_catch_preserves_shape : forall c e c',
+  shape_ok c -> c_running c = true -> handle_catch c (Some e) = (c', None) -> shape_ok c'.
+Proof. exact catch_preserves_shape. Qed.
+
+(* callFramePop from a well-shaped context inside a function restores a well-shaped caller *)
+Theorem C10_frame_pop_shape : forall c c', shape_ok c -> 0 < c_fp c ->
+  (forall v, c_result c = Some v -> length (c_stack c) = c_fp c) ->
+  frame_pop c = (c', None) -> wf_stack (c_stack c') /\ c_fp c' = fp_of (c_stack c') /\
+                               (c_result c' = None \/ c_result c' = c_result c /\ c_fp c < length (c_stack c)).
+Proof. exact frame_pop_shape. Qed.
+
+Example C10_shape_nonvacuous :
+  shape_ok ex_ctx /\ simple_instr (IBin BDiv) = true /\
+  (exists c', handle_catch ex_ctx (Some EDivZero) = (c', None) /\ shape_ok c').
+Proof.
+  assert (H : shape_ok ex_ctx) by (repeat split; cbn; auto).
+  split; [exact H|]. split; [reflexivity|].
+  destruct (handle_catch ex_ctx (Some EDivZero)) as [c' e] eqn:E.
+  assert (e = None) by (vm_compute in E; congruence). subst e.
+  exists c'. split; [reflexivity|]. eapply catch_preserves_shape; eauto.
+Qed.
